@@ -20,21 +20,61 @@ impl<T: Atomic> Atom<T> {
     #[cfg_attr(feature = "log_trace", track_caller)]
     pub fn load(&self) -> T {
         trace!("{} load", core::panic::Location::caller());
+        #[cfg(feature = "verif")]
+        if crate::verif::enabled() {
+            let a = core::ptr::from_ref(self) as usize;
+            crate::verif::before(crate::verif::Kind::Load, a, size_of::<T>());
+            let v = self.0.load();
+            crate::verif::after(crate::verif::Kind::Load, a, size_of::<T>(), crate::verif::bits(&v), true);
+            return v.into();
+        }
         self.0.load().into()
     }
     #[cfg_attr(feature = "log_trace", track_caller)]
     pub fn store(&self, v: T) {
         trace!("{} store", core::panic::Location::caller());
+        #[cfg(feature = "verif")]
+        if crate::verif::enabled() {
+            let a = core::ptr::from_ref(self) as usize;
+            let v: <T::I as AtomicImpl>::V = v.into();
+            crate::verif::before(crate::verif::Kind::Store, a, size_of::<T>());
+            self.0.store(v);
+            crate::verif::after(crate::verif::Kind::Store, a, size_of::<T>(), crate::verif::bits(&v), true);
+            return;
+        }
         self.0.store(v.into());
     }
     #[cfg_attr(feature = "log_trace", track_caller)]
     pub fn swap(&self, v: T) -> T {
         trace!("{} swap", core::panic::Location::caller());
+        #[cfg(feature = "verif")]
+        if crate::verif::enabled() {
+            let a = core::ptr::from_ref(self) as usize;
+            crate::verif::before(crate::verif::Kind::Swap, a, size_of::<T>());
+            let old = self.0.swap(v.into());
+            crate::verif::after(crate::verif::Kind::Swap, a, size_of::<T>(), crate::verif::bits(&old), true);
+            return old.into();
+        }
         self.0.swap(v.into()).into()
     }
     #[cfg_attr(feature = "log_trace", track_caller)]
     pub fn compare_exchange(&self, current: T, new: T) -> Result<T, T> {
         trace!("{} cmpxchg", core::panic::Location::caller());
+        #[cfg(feature = "verif")]
+        if crate::verif::enabled() {
+            let a = core::ptr::from_ref(self) as usize;
+            crate::verif::before(crate::verif::Kind::Cas, a, size_of::<T>());
+            let r = self.0.compare_exchange(current.into(), new.into());
+            let (v, ok) = match &r {
+                Ok(v) => (crate::verif::bits(v), true),
+                Err(v) => (crate::verif::bits(v), false),
+            };
+            crate::verif::after(crate::verif::Kind::Cas, a, size_of::<T>(), v, ok);
+            return match r {
+                Ok(v) => Ok(v.into()),
+                Err(v) => Err(v.into()),
+            };
+        }
         match self.0.compare_exchange(current.into(), new.into()) {
             Ok(v) => Ok(v.into()),
             Err(v) => Err(v.into()),
@@ -43,6 +83,11 @@ impl<T: Atomic> Atom<T> {
     #[cfg_attr(feature = "log_trace", track_caller)]
     pub fn compare_exchange_weak(&self, current: T, new: T) -> Result<T, T> {
         trace!("{} cmpxchgw", core::panic::Location::caller());
+        #[cfg(feature = "verif")]
+        if crate::verif::enabled() {
+            // strong exchange: a scheduled run must be deterministic
+            return self.compare_exchange(current, new);
+        }
         match self.0.compare_exchange_weak(current.into(), new.into()) {
             Ok(v) => Ok(v.into()),
             Err(v) => Err(v.into()),
@@ -51,6 +96,20 @@ impl<T: Atomic> Atom<T> {
     #[cfg_attr(feature = "log_trace", track_caller)]
     pub fn try_update<F: FnMut(T) -> Option<T>>(&self, mut f: F) -> Result<T, T> {
         trace!("{} update", core::panic::Location::caller());
+        #[cfg(feature = "verif")]
+        if crate::verif::enabled() {
+            // the loop of `fetch_update`, with a scheduling point before each access
+            let mut cur = self.load();
+            loop {
+                let Some(new) = f(cur) else {
+                    return Err(cur);
+                };
+                match self.compare_exchange(cur, new) {
+                    Ok(_) => return Ok(cur),
+                    Err(v) => cur = v,
+                }
+            }
+        }
         match self.0.try_update(|v| f(v.into()).map(Into::into)) {
             Ok(v) => Ok(v.into()),
             Err(v) => Err(v.into()),
@@ -59,6 +118,16 @@ impl<T: Atomic> Atom<T> {
     #[cfg_attr(feature = "log_trace", track_caller)]
     pub fn update<F: FnMut(T) -> T>(&self, mut f: F) -> T {
         trace!("{} update", core::panic::Location::caller());
+        #[cfg(feature = "verif")]
+        if crate::verif::enabled() {
+            let mut cur = self.load();
+            loop {
+                match self.compare_exchange(cur, f(cur)) {
+                    Ok(_) => return cur,
+                    Err(v) => cur = v,
+                }
+            }
+        }
         self.0.update(|v| f(v.into()).into()).into()
     }
 }
@@ -124,6 +193,14 @@ macro_rules! fn_trivial {
     ($ty:ident ; $($name:ident),+) => {
         $(
             pub fn $name(&self, v: $ty) -> $ty {
+                #[cfg(feature = "verif")]
+                if crate::verif::enabled() {
+                    let a = core::ptr::from_ref(self) as usize;
+                    crate::verif::before(crate::verif::Kind::Rmw, a, size_of::<$ty>());
+                    let old = AtomicImpl::$name(&self.0, v);
+                    crate::verif::after(crate::verif::Kind::Rmw, a, size_of::<$ty>(), old as u64, true);
+                    return old;
+                }
                 AtomicImpl::$name(&self.0, v)
             }
         )+
